@@ -31,6 +31,9 @@ CHECKS = {
  "C15": dict(text="Seeded search over schedules and trip counts: pipeline-shaped loops are compiled with construct-pipeline, pipeline-duplicate-buffers, unroll-pipeline (optionally prefixed by pipeline-canonicalize-for or followed by insert-sync-barrier,dispatch-regions) and executed by 2-3 simulated cores under seeded interleavings, stalls and burst splits; compared with the sequential loop: multiset of (stage op, external tile, data read), final contents of the function arguments, set of external cells touched; race monitor and barrier deadlock online.",
               note="Trusts the cluster model (A4-A6); tiles of 2 elements, 2-4 stages, trip counts 0..6, lb in {0,1,3}, step in {1,2}; after fix 8d5b077 only loops with constant lb 0 / step 1 / ub >= #stages-1 are pipelined, other environments check that the loop is left alone.",
               tech="deterministic multi-core simulation with seeded scheduler (interleavings, stalls, bursts); exactly-once/provenance multiset, final-state refinement against the sequential loop, race monitor", ref="5 C15"),
+ "C17": dict(text="Seeded search (degenerate use of the simulator: one core, no schedule, no fault): loop nests with tagged effect ops, allocations, dim/subview/affine.min sizes are compiled with pipeline-canonicalize-for and/or reuse-memref-allocs; original and transformed function are executed under seeded runtime bounds and shapes and their traces of (op, evaluated index operands, allocation site / offsets / sizes of memref operands) must be identical; static SSA dominance of the output. Two genuine defects enshrined in upstream expectations are recorded as known findings KF-C17-1/2; a third (ub // step) was repaired in /repo.",
+              note="No interleaving or fault enters this property (evidence reports distinct_interleavings = 1); trusts the interpreter; bounds: depth <= 3, constant bounds <= 8, dynamic bounds <= 5. Known-finding triggers mask effect-trace mismatches only in programs containing an imperfect constant-bound nest (KF-C17-1) or alloc(dim(subview[affine.min])) (KF-C17-2).",
+              tech="deterministic simulation of original vs restructured loop nest on one core; effect-trace equality (no schedule/fault dimension)", ref="5 C17"),
  "C06": dict(text="Seeded search as C01 with the subject accfg-config-overlap applied to traced / deduplicated programs, compared against its own input only on environments where that input was right and its state links truthful; also static SSA dominance and run-time undefined-value detection. One genuine defect is recorded as known finding KF-C06-1.",
               note="As C01; large latencies make moved setups execute inside the accelerator's busy window (probe setup-while-busy); known finding KF-C06-1 masks launch-snapshot mismatches only in programs whose loop body has two setups of one accelerator followed by a later setup of it, with dedup before overlap.",
               tech="deterministic simulation (reference vs overlapped program) with seeded clobber/latency faults; history refinement + dominance oracle", ref="5 C06"),
